@@ -14,8 +14,14 @@ func VerifC11_ClientIP() {
 	port := zzverif.StringFrom("port", 2, "0123456789")
 	xff := zzverif.StringFrom("xff", 4, "0123456789., :a")
 	r := &http.Request{Header: http.Header{}, RemoteAddr: host + ":" + port}
-	r.Header["X-Forwarded-For"] = []string{xff}
-	r.Header["X-Real-Ip"] = []string{"7.7.7.7"}
+	// each forwarding header present or not (a guard that covers only one of
+	// them shows when the other one is sent alone)
+	if zzverif.Bool("hasXFF") {
+		r.Header["X-Forwarded-For"] = []string{xff}
+	}
+	if zzverif.Bool("hasRealIP") {
+		r.Header["X-Real-Ip"] = []string{"7.7.7.7"}
+	}
 	got := getClientIP(r, false)
 	zzverif.Assert(got == host, "untrusted-identity-is-not-the-remote-host")
 
@@ -25,6 +31,24 @@ func VerifC11_ClientIP() {
 	zzverif.Assert(got == host, "forwarding-header-honoured-from-untrusted-peer")
 	SetTrustedProxies(nil)
 	zzverif.Reach("clientip")
+}
+
+// IPv6 peers: "[host]:port". The identity is the host between the brackets, so
+// two different peers never share a bucket or a lockout record.
+func VerifC11_ClientIPv6() {
+	h6 := zzverif.StringFrom("host", 4, "0123456789abcdef:")
+	port := zzverif.StringFrom("port", 2, "0123456789")
+	r := &http.Request{Header: http.Header{}, RemoteAddr: "[" + h6 + "]:" + port}
+	if zzverif.Bool("hasXFF") {
+		r.Header["X-Forwarded-For"] = []string{"9.9.9.9"}
+	}
+	got := getClientIP(r, false)
+	zzverif.Assert(got == h6, "ipv6-identity-is-not-the-remote-host")
+	SetTrustedProxies([]string{"10.9.9.9"})
+	got = getClientIP(r, true)
+	zzverif.Assert(got == h6, "ipv6-forwarding-header-honoured-from-untrusted-peer")
+	SetTrustedProxies(nil)
+	zzverif.Reach("clientip6")
 }
 
 func VerifC11_ClientIPTwin() {
